@@ -250,6 +250,23 @@ def fam_two_spill_regimes(n):
     return pt.Return(pt.Int(7) + f(pt.Int(n)) == pt.Int(7 + py_f(n))), 4
 
 
+def fam_early_return_value_tail(n):
+    """a value-returning classic routine with an ABI local whose body ENDS in a plain value (the compiler appends the return) and has
+    an explicit `Return(v)` in statement position earlier: both exits must hand back their own value under either convention"""
+    from pyteal import abi
+
+    @pt.Subroutine(pt.TealType.uint64)
+    def f(k):
+        a = abi.Uint64()
+        extra = [abi.Uint64() for _ in range(n)]
+        return pt.Seq(a.set(k + pt.Int(1)), *[e.set(pt.Int(40 + i)) for i, e in enumerate(extra)],
+                      pt.If(k == pt.Int(0)).Then(pt.Return(pt.Int(7))),
+                      pt.If(k == pt.Int(9)).Then(pt.Return(a.get() + pt.Int(1))),
+                      a.get() * pt.Int(10))
+    # f(0) = 7, f(9) = 11, f(4) = 50
+    return pt.Return(pt.Int(100) + f(pt.Int(0)) + f(pt.Int(9)) + f(pt.Int(4)) == pt.Int(168)), 6
+
+
 def fam_after_router(k):
     """a routine first compiled inside Router.compile_program (scratch convention; the Router rewinds the slot-id counter afterwards while
     the routine keeps its slots), then called by an ordinary program that holds k fresh variables across the call: the variables may carry
@@ -278,6 +295,7 @@ def fam_after_router(k):
 FAMILIES = {
     "after_router": (fam_after_router, [1, 4, 8, 12]),
     "two_spill_regimes": (fam_two_spill_regimes, [0, 1, 3]),
+    "early_return_value_tail": (fam_early_return_value_tail, [0, 2]),
     "slot_capacity_chain": (fam_slot_capacity_chain, [3, 250, 251, 253, 254]),
     "abi_many_locals": (fam_abi_many_locals, [126, 127, 128, 130]),
     "explicit_return_abi_local": (fam_explicit_return_abi_local, [0, 3, 12]),
